@@ -1,4 +1,5 @@
 //! qvh — verification harness for /verif (see /verif/DESIGN.md).
+mod build;
 mod hdr;
 mod pure;
 mod seq;
@@ -67,6 +68,8 @@ fn main() {
             let profile = match m.get("profile").map(|s| s.as_str()).unwrap_or("general") {
                 "churn" => seq::Profile::Churn,
                 "validate" => seq::Profile::Validate,
+                "flushy" => seq::Profile::Flushy,
+                "cow" => seq::Profile::Cow,
                 _ => seq::Profile::General,
             };
             let nops: usize = m.get("ops").and_then(|s| s.parse().ok()).unwrap_or(40);
@@ -91,7 +94,22 @@ fn main() {
                     }
                     cs
                 }
-                None => (0..n).map(|id| seq::gen_case(seed, id, profile, nops)).collect(),
+                None => {
+                    let kinds: Vec<String> = m
+                        .get("img")
+                        .map(|s| s.split(',').map(|x| x.to_string()).collect())
+                        .unwrap_or_else(|| vec!["format".to_string()]);
+                    (0..n)
+                        .map(|id| {
+                            let kind = &kinds[id % kinds.len()];
+                            if kind == "format" {
+                                seq::gen_case(seed, id, profile, nops)
+                            } else {
+                                seq::gen_built_case(seed, id, profile, nops, kind)
+                            }
+                        })
+                        .collect()
+                }
             };
             let only: Option<usize> = m.get("only").and_then(|s| s.parse().ok());
             let skip: Vec<usize> = m
@@ -147,16 +165,58 @@ fn main() {
                 tick.fetch_add(1, std::sync::atomic::Ordering::Relaxed);
                 inp.extend(case.lines());
                 flush_to(&mut f_in, &mut inp);
-                let img = match util::format_image(case.size, case.cb, case.ro, 1 << case.bsb) {
-                    Ok(i) => i,
-                    Err(_) => {
+                // a corpus file may carry its images next to it (<file>.img0, .img1,
+                // .comp, .flat) so that it does not depend on the builder staying stable
+                let side = m.get("replay").filter(|p| std::path::Path::new(&format!("{}.img0", p)).exists());
+                let images = match side {
+                    Some(p) => {
+                        let mut files = vec![std::fs::read(format!("{}.img0", p)).unwrap()];
+                        if let Ok(b) = std::fs::read(format!("{}.img1", p)) {
+                            files.push(b);
+                        }
+                        let rl = |ext: &str| -> Vec<String> {
+                            std::fs::read_to_string(format!("{}.{}", p, ext))
+                                .map(|t| t.lines().map(|l| l.to_string()).collect())
+                                .unwrap_or_default()
+                        };
+                        Ok(Ok(seq::CaseImages { files, comp: rl("comp"), flat: rl("flat") }))
+                    }
+                    None => std::panic::catch_unwind(|| seq::case_images(&case)),
+                };
+                let images = match images {
+                    Ok(Ok(i)) => i,
+                    Ok(Err(_)) | Err(_) => {
                         imp.push(format!("case {}", case.id));
                         imp.push("format err".into());
                         imp.push("end".into());
                         continue;
                     }
                 };
-                let files = vec![sim::SimFile::new("top", img)];
+                if let Some(dest) = m.get("corpus") {
+                    write_lines(dest, &case.lines());
+                    if case.img != "format" {
+                        for (i, f) in images.files.iter().enumerate() {
+                            std::fs::write(format!("{}.img{}", dest, i), f).unwrap();
+                        }
+                        write_lines(&format!("{}.comp", dest), &images.comp);
+                        write_lines(&format!("{}.flat", dest), &images.flat);
+                    }
+                }
+                if case.img != "format" {
+                    // sidecars for the Lean driver: initial images, plaintext of
+                    // compressed clusters, ground-truth guest content
+                    for (i, f) in images.files.iter().enumerate() {
+                        std::fs::write(format!("{}/case{}.img{}", out, case.id, i), f).unwrap();
+                    }
+                    write_lines(&format!("{}/case{}.comp", out, case.id), &images.comp);
+                    write_lines(&format!("{}/case{}.flat", out, case.id), &images.flat);
+                }
+                let files: Vec<sim::SimFile> = images
+                    .files
+                    .iter()
+                    .enumerate()
+                    .map(|(i, f)| sim::SimFile::new(if i == 0 { "top" } else { "back" }, f.clone()))
+                    .collect();
                 let mut r = seq::Runner::new(case.clone(), files, if dump { Some(out.clone()) } else { None });
                 r.run();
                 imp.push(format!("case {}", case.id));
